@@ -119,6 +119,7 @@ struct Ctr {
     unexpected_yields: u64,
     wakeups_checked: u64,
     polls_with_other_waker: u64,
+    vectored_writes: u64,
     wakeups_reader: u64,
     wakeups_writer: u64,
     wakeups_on_close: u64,
@@ -509,7 +510,12 @@ fn run_seq(
             Op::Write { bytes } => {
                 let wr = writer.as_mut().unwrap();
                 let mut cx = Context::from_waker(w_waker);
-                match poll_once(reset, &mut cx, |cx| Pin::new(&mut *wr).poll_write(cx, bytes)) {
+                let vz = seq.vectored.get(oi).copied().unwrap_or(0) as usize;
+                let slices: Vec<std::io::IoSlice<'_>> = if vz > 0 && bytes.len() > vz { bytes.chunks(vz).map(std::io::IoSlice::new).collect() } else { vec![] };
+                if !slices.is_empty() {
+                    c.vectored_writes += 1;
+                }
+                match poll_once(reset, &mut cx, |cx| if slices.is_empty() { Pin::new(&mut *wr).poll_write(cx, bytes) } else { Pin::new(&mut *wr).poll_write_vectored(cx, &slices) }) {
                     Poll::Pending => Raw::Pending,
                     Poll::Ready(Ok(k)) => Raw::WriteOk(k),
                     Poll::Ready(Err(e)) => Raw::Err(e.kind()),
@@ -665,7 +671,12 @@ fn run_seq(
                         v = Some(viol("capacity", "over", format!("poll_write accepted {} bytes with only {} free (capacity {}): {}", k, free, run.m.cap, run.ctx(oi, op, &res_txt()))));
                     } else if k == 0 {
                         v = Some(viol("capacity", "zero_write", format!("poll_write returned Ok(0) for a non-empty buffer on an open channel ({} free): {}", free, run.ctx(oi, op, &res_txt()))));
-                    } else if k < bytes.len().min(free) && !run.m.shutdown {
+                    } else if k < {
+                        // A vectored write may stop after its first slice (the default implementation does).
+                        let vz = seq.vectored.get(oi).copied().unwrap_or(0) as usize;
+                        if vz > 0 && bytes.len() > vz { vz.min(free) } else { bytes.len().min(free) }
+                    } && !run.m.shutdown
+                    {
                         v = Some(viol("capacity", "short_write", format!("poll_write accepted {} bytes, expected min(len={}, free={}): {}", k, bytes.len(), free, run.ctx(oi, op, &res_txt()))));
                     } else {
                         // (A write accepted after the writer's own shutdown is not demanded to fail
@@ -878,6 +889,7 @@ impl World for ChanWorld {
         out.count("unexpected_yields", c.unexpected_yields);
         out.count("wakeups_checked", c.wakeups_checked);
         out.count("polls_with_other_waker", c.polls_with_other_waker);
+        out.count("vectored_writes", c.vectored_writes);
         out.count("wakeups_reader", c.wakeups_reader);
         out.count("wakeups_writer", c.wakeups_writer);
         out.count("wakeups_on_close", c.wakeups_on_close);
